@@ -13,4 +13,7 @@ go build -o bin/simgen ./cmd/simgen
 go build -o bin/check ./cmd/check
 # warm the build cache for the worker's dependencies (not a verdict; failures surface in the checks)
 go build ./sim/... ./harness/... >/dev/null 2>&1 || true
+# self-tests of the simulator's own models (mutex, semaphore, wait group, errgroup, disk faults,
+# symbolic links, simulated processes, deadlock detection)
+go test -count=1 ./sim/kern/ || echo "WARNING: kernel self-tests failed"
 echo "setup ok"
